@@ -39,6 +39,8 @@ class E:
     def lift(o):
         if isinstance(o, E):
             return o
+        if isinstance(o, C):
+            return E(o.e)          # PuLP: an LpConstraint used as an expression is its lhs - rhs
         return E(q(o))
 
     def __add__(s, o):
@@ -70,13 +72,13 @@ class E:
         return s
 
     def __le__(s, o):
-        return C(s.z <= E.lift(o).z)
+        return C(s.z - E.lift(o).z, "le")
 
     def __ge__(s, o):
-        return C(s.z >= E.lift(o).z)
+        return C(s.z - E.lift(o).z, "ge")
 
     def __eq__(s, o):
-        return C(s.z == E.lift(o).z)
+        return C(s.z - E.lift(o).z, "eq")
 
     __hash__ = None
 
@@ -93,13 +95,26 @@ def VALUE_OF(e):
 
 
 class C:
-    __slots__ = ("b",)
+    """constraint `e (sense) 0`.  Like pulp.LpConstraint it is also an affine expression (lhs - rhs): the repository adds constraints to
+    running sums and puts them on the right-hand side of another comparison, which PuLP silently accepts (the sense is dropped)."""
+    __slots__ = ("e", "sense")
 
-    def __init__(s, b):
-        s.b = b
+    def __init__(s, e, sense):
+        s.e = e
+        s.sense = sense
+
+    @property
+    def b(s):
+        zero = z3.RealVal(0)
+        return s.e <= zero if s.sense == "le" else (s.e >= zero if s.sense == "ge" else s.e == zero)
+
+    def __add__(s, o):
+        return C(s.e + E.lift(o).z, s.sense)
+
+    __radd__ = __add__
 
     def __bool__(s):
-        raise TypeError("LP constraint used as a truth value (the real PuLP would silently accept this: harness refuses)")
+        raise TypeError("LP constraint used as a truth value")
 
 
 class Var(E):
@@ -121,7 +136,21 @@ class Var(E):
 class Registry:
     def __init__(self):
         self.vars = []
-        self.value_hook = lambda v: (_ for _ in ()).throw(RuntimeError("varValue requested without hook"))
+        self.snapshots = []
+        self.fresh = 0
+        self.values = {}      # (stage, var name) -> z3 Real standing for the value CBC reported
+        self.objvals = []     # [(z3 Real standing for objective.value(), objective term, stage)]
+
+    def value_hook(self, v):
+        key = (len(self.snapshots), v.name)
+        if key not in self.values:
+            self.values[key] = z3.Real("value_stage%d!%s" % key)
+        return E(self.values[key])
+
+    def objective_hook(self, e):
+        r = z3.Real("objective_value_stage%d" % len(self.snapshots))
+        self.objvals.append((r, e.z, len(self.snapshots)))
+        return E(r)
 
 
 REG = Registry()
@@ -161,6 +190,7 @@ class Problem:
 
     def solve(s, *a, **k):
         s.solve_calls += 1
+        REG.snapshots.append(dict(cons=dict(s.cons), objective=s.objective.e.z if s.objective is not None else None, sense=s.sense, nvars=len(REG.vars)))
         return 1
 
     def variables(s):
@@ -192,3 +222,6 @@ def install(om):
 
 def reset():
     REG.vars = []
+    REG.snapshots = []
+    REG.values = {}
+    REG.objvals = []
